@@ -106,7 +106,10 @@ def unit_triangle(nu:int, nv:int, generate_uvs:bool=False) -> SurfaceMesh:
     for j,v in enumerate(V):
         for i,u in enumerate(U):
             if i>j or j==nv-1: break
-            kpt = j*(j+1)//2 + i
-            if i<j: out.faces.append((kpt,kpt+j+2,kpt+1))
-            out.faces.append((kpt,kpt+j+1,kpt+j+2))
+            # row j holds min(j+1,nu) vertices: the first nu rows are full, the later ones are cut at nu vertices
+            mj, mk = min(j,nu), min(j+1,nu)
+            kpt = mj*(mj+1)//2 + (j-mj)*nu + i   # index of vertex (i,j)
+            knx = mk*(mk+1)//2 + (j+1-mk)*nu + i # index of vertex (i,j+1)
+            if i<j and i<nu-1: out.faces.append((kpt,knx+1,kpt+1))
+            if i<nu-1: out.faces.append((kpt,knx,knx+1))
     return _instanciate_raw_mesh_data(out, 2)
